@@ -610,3 +610,19 @@ M("C22", "right end limited against the inner secant", "kill",
   [(PT, "_limit_endpoint(dn, delta[-1], delta[-2])", "_limit_endpoint(dn, delta[-2], delta[-1])")], "PCHIP-end")
 M("C22", "twin: end slope zeroed with a non-strict product test", "twin",
   [(PT, "    mask_sign_change = torch.sign(d_end) != torch.sign(s_l)", "    mask_sign_change = d_end * s_l <= 0")])
+M("C24", "jump-operator builder drops interact_type (callee default 'ising')", "kill",
+  [(PA, "            dim=dim,\n            interact_type=interact_type,\n        )", "            dim=dim,\n        )")], "NOISE-forward")
+M("C24", "jump-operator builder drops dim (callee default 2)", "kill",
+  [(PA, "            dim=dim,\n            interact_type=interact_type,\n        )", "            interact_type=interact_type,\n        )")], "NOISE-forward")
+M("C24", "PulserData requests jump operators without the interaction type", "kill",
+  [(PA, "            self.noise_model, dim=self.dim, interact_type=int_type\n", "            self.noise_model, dim=self.dim\n")], "NOISE-forward")
+M("C24", "twin: jump-operator builder called with a kwargs-free local alias", "twin",
+  [(PA, "    return [\n        op\n        for noise_type in noise_model.noise_types\n", "    kind = interact_type\n    return [\n        op\n        for noise_type in noise_model.noise_types\n"),
+   (PA, "            interact_type=interact_type,\n        )", "            interact_type=kind,\n        )")])
+M("C23", "sv dark wrapper caches the first filtered matrix", "kill",
+  [(SVI, "            def interaction_matrix(t: float) -> torch.Tensor:\n                mat = original(t).clone()\n                mat[indices, :] = 0.0\n                mat[:, indices] = 0.0\n                return mat",
+    "            cache: list[torch.Tensor] = []\n\n            def interaction_matrix(t: float) -> torch.Tensor:\n                if not cache:\n                    mat = original(t).clone()\n                    mat[indices, :] = 0.0\n                    mat[:, indices] = 0.0\n                    cache.append(mat)\n                return cache[0]")], "DARK-sv")
+M("C23", "sv dark wrapper queries the matrix at time 0", "kill",
+  [(SVI, "                mat = original(t).clone()", "                mat = original(0.0).clone()")], "DARK-sv")
+M("C25", "twin: sv dark wrapper reads the Pulser data's callable directly", "twin",
+  [(SVI, "                mat = original(t).clone()", "                mat = self._data.interaction_matrix(t).clone()")])
